@@ -141,6 +141,22 @@ def _classes():
         def _getparamnames(self, prefix=""):
             return [prefix + "mat"]
 
+    class MFreeHnd(xitorch.LinearOperator):
+        """matrix-free Hermitian operator scale * mat whose FIRST declared parameter (scale = 1) does not require
+        grad while the second one (mat) does"""
+
+        def __init__(self, mat):
+            super().__init__(shape=tuple(mat.shape), is_hermitian=True, dtype=mat.dtype, device=mat.device)
+            self.scale = torch.ones((), dtype=mat.dtype)
+            self.mat = mat
+
+        def _mv(self, x):
+            return self.scale * torch.matmul(self.mat, x.unsqueeze(-1)).squeeze(-1)
+
+        def _getparamnames(self, prefix=""):
+            return [prefix + "scale", prefix + "mat"]
+
+    _CLS["MFreeHnd"] = MFreeHnd
     _CLS["MFreeH"] = MFreeH
     _CLS["MFreeG"] = MFreeG
     return _CLS
@@ -156,6 +172,8 @@ def herm_op(kind, mat, aux=None):
         return xitorch.LinearOperator.m(mat, is_hermitian=True)
     if kind == "mfree":
         return c["MFreeH"](mat)
+    if kind == "mfree_nd":
+        return c["MFreeHnd"](mat)
     if kind == "sum":
         return c["MFreeH"](mat - aux) + xitorch.LinearOperator.m(aux, is_hermitian=True)
     if kind == "prod":
